@@ -149,22 +149,46 @@ class LexerModel:
         return table
 
     def _keyword_table(self, syn):
+        """word -> token as as_op_or_id maps it.  The function is folded (rules/smalleval.py) over every string literal that occurs as a
+        pattern in it or in the private helpers it calls, plus one word that is none of them - so the table may be written as one match, as a
+        lookup helper returning an Option, as a constant table that is searched .."""
+        from .smalleval import SmallEval, NoEval
+        from .common import local_helpers
         f = syn.one_fn("as_op_or_id", mod="parse::lex::tokenize")
-        m = None
-        for n in walk(f["body"]):
-            if n.get("k") == "match":
-                m = n
-                break
-        if m is None:
-            raise AnchorError("as_op_or_id is no longer a match")
+        fns = [f] + local_helpers(syn, f)
+        words = set()
+        for g in fns:
+            for n in walk(g["body"]):
+                if n.get("k") == "plit" and n["e"].get("t") == "str":
+                    words.add(n["e"]["v"])
+                if n.get("k") == "lit" and n.get("t") == "str":
+                    words.add(n["v"])
+        if len(words) < 20:
+            raise AnchorError(f"as_op_or_id: only {len(words)} word literals found")
+        local = {g["name"]: g for g in syn.fns if g["mod"] == f["mod"] and g.get("impl_of") is None and g.get("body")}
+        ev = SmallEval(local_fns=local)
+        ev.const_nodes = {k_: c_["e"] for k_, c_ in syn.consts.items() if c_.get("e", {}).get("k") != "lit"}
+
+        def tok(v):
+            if isinstance(v, str):
+                return v
+            if isinstance(v, tuple) and v and v[0] == "call":
+                return v[1]
+            if isinstance(v, tuple) and v and v[0] == "variant":
+                return v[1] + "(" + ",".join("string" if isinstance(x, tuple) and x and x[0] == "text" else str(x) for x in (v[2] or [])) + ")"
+            return str(v)
+        ev.funcs["Token::Id"] = lambda x: ("variant", "Token::Id", [x])
         table = {}
-        self.keyword_default = None
-        for a in m["arms"]:
-            for alt in pat_alternatives(a["pat"]):
-                if alt.get("k") == "plit" and alt["e"].get("t") == "str":
-                    table[alt["e"]["v"]] = src(strip(a["body"]))
-                elif alt.get("k") in ("pwild", "pident"):
-                    self.keyword_default = src(strip(a["body"]))
+        try:
+            for w in sorted(words):
+                r = ev.call(f, [("text", w)])
+                t_ = tok(r)
+                if not t_.startswith("Token::Id"):
+                    table[w] = t_
+            d = ev.call(f, [("text", "zzz_not_a_keyword")])
+            self.keyword_default = "Token::Id(string)" if tok(d).startswith("Token::Id") and isinstance(d, tuple) and d[2] and d[2][0] == ("text", "zzz_not_a_keyword") else tok(d)
+        except NoEval as ex:
+            raise AnchorError(f"as_op_or_id left the analysable fragment ({ex})")
         return table
 
     def spelling(self, token):
